@@ -33,7 +33,7 @@ var c19 = core.Register(&core.Prop{
 	},
 	Floors: func(c map[string]int64, tier string) []string {
 		var out []string
-		for _, k := range []string{"date_cases", "date_carried", "field_cases", "adddate_cases", "usetimezone_cases", "usetimezone_unknown", "timeformat_cases", "now_cases", "today_cases", "records_with_builtin_named_columns", "local_zone_switches", "virtual_clock_cases", "near_transition", "millsecond_beyond_2262", "negated_extractor_cases", "fields_through_local_cases"} {
+		for _, k := range []string{"date_cases", "date_carried", "field_cases", "adddate_cases", "usetimezone_cases", "usetimezone_unknown", "timeformat_cases", "now_cases", "today_cases", "records_with_builtin_named_columns", "local_zone_switches", "virtual_clock_cases", "not_a_time_cases", "near_transition", "millsecond_beyond_2262", "negated_extractor_cases", "fields_through_local_cases"} {
 			if c[k] == 0 {
 				out = append(out, "coverage floor: no "+k)
 			}
@@ -203,6 +203,9 @@ func locOf(name string) *time.Location {
 	return l
 }
 
+var refDays = []string{"Sunday", "Monday", "Tuesday", "Wednesday", "Thursday", "Friday", "Saturday"}
+var refMonths = []string{"January", "February", "March", "April", "May", "June", "July", "August", "September", "October", "November", "December"}
+
 func refFormat(c civil, offset int64, layout string) string {
 	// tokens: 2006 01 02 15 04 05 -0700; everything else literal
 	var sb strings.Builder
@@ -214,6 +217,24 @@ func refFormat(c civil, offset int64, layout string) string {
 		case strings.HasPrefix(layout[i:], "MST"):
 			sb.WriteString(c.Abbr)
 			i += 3
+		case strings.HasPrefix(layout[i:], "Monday"):
+			sb.WriteString(refDays[c.Wd])
+			i += 6
+		case strings.HasPrefix(layout[i:], "Mon"):
+			sb.WriteString(refDays[c.Wd][:3])
+			i += 3
+		case strings.HasPrefix(layout[i:], "January"):
+			sb.WriteString(refMonths[c.Mo-1])
+			i += 7
+		case strings.HasPrefix(layout[i:], "Jan"):
+			sb.WriteString(refMonths[c.Mo-1][:3])
+			i += 3
+		case strings.HasPrefix(layout[i:], "PM"):
+			sb.WriteString(map[bool]string{true: "PM", false: "AM"}[c.H >= 12])
+			i += 2
+		case strings.HasPrefix(layout[i:], "pm"):
+			sb.WriteString(map[bool]string{true: "pm", false: "am"}[c.H >= 12])
+			i += 2
 		case strings.HasPrefix(layout[i:], "2006"):
 			fmt.Fprintf(&sb, "%04d", c.Y)
 			i += 4
@@ -296,6 +317,14 @@ func c19Body(w *core.W, c *DateCase) {
 		return len(candidateOffsets(x)) > 1
 	}
 	switch c.Fn {
+	case "not-a-time":
+		v, err, panicked, pv := resolveIn(map[string]interface{}{"t": time.Unix(0, 0), "np": (*time.Time)(nil), "str": "x"}, c.Str)
+		w.Eval(1)
+		w.Count("not_a_time_cases")
+		w.Nontrivial(key)
+		if panicked || err == nil {
+			bad("not-a-time-accepted", "an error", fmt.Sprint(show(v), pv), c.Str+": the argument is not a time")
+		}
 	case "date":
 		y, m, d := c.Args[0], c.Args[1], c.Args[2]
 		src := fmt.Sprintf("date(%s, %s, %s)", intSrc(y), intSrc(m), intSrc(d))
@@ -582,7 +611,9 @@ func transitions(loc *time.Location) []int64 {
 	return out
 }
 
-var c19Layouts = []string{"15:04:05.000", "2006-01-02 15:04:05.000 MST", "15:04 MST", "2006-01-02", "2006-01-02 15:04:05", "15:04", "02/01/2006", "2006-01-02T15:04:05-0700", "20060102150405", "05 04 15", "-0700 2006", "x", "", "2006年01月02日"}
+var c19Layouts = []string{"15:04:05.000", "2006-01-02 15:04:05.000 MST", "15:04 MST", "2006-01-02", "2006-01-02 15:04:05", "15:04", "02/01/2006", "2006-01-02T15:04:05-0700", "20060102150405", "05 04 15", "-0700 2006", "x", "", "2006年01月02日",
+	// layouts without any digit, and name elements next to numeric ones
+	"Monday", "Mon", "January", "Jan", "MST", "PM", "pm", "Monday, January", "Mon Jan MST", "Monday 02 January 2006 15:04 PM", "Jan 02 (Mon) 05", "Z MST Z"}
 
 func init() { c19.Run = runC19 }
 
@@ -653,6 +684,12 @@ func runC19(w *core.W) {
 	for i := 0; i < 50; i++ {
 		run(&DateCase{Fn: "now"})
 		run(&DateCase{Fn: "toDay"})
+	}
+	// what is not a time is not accepted as one (null, absent columns, typed nil pointers, numbers, texts)
+	for _, fn := range []string{"year(%s)", "month(%s)", "day(%s)", "hour(%s)", "minute(%s)", "second(%s)", "weekDay(%s)", "millSecond(%s)", "addDate(%s, 0, 0, 1)", "useTimezone(%s, 'UTC')", "timeFormat(%s, '2006-01-02')"} {
+		for _, arg := range []string{"null", "absent", "np", "0", "'2024-01-01'", "[t]", "str"} {
+			run(&DateCase{Fn: "not-a-time", Str: strings.ReplaceAll(fn, "%s", arg)})
+		}
 	}
 	// now / toDay at chosen instants (virtual clock): around every transition of the local zone, around local midnights,
 	// year ends, leap days and random moments between 1900 and 2200
